@@ -89,6 +89,15 @@ func (a *AliasMangler) Mangle(sf reflect.StructField) ([]reflect.StructField, er
 		setAliases = append(setAliases, tag+"="+originalVals[tag])
 	}
 
+	// A source-specific tag (every tag after the first) that has no alias of
+	// its own would give the copy the very name the original has in that
+	// source: drop it, so the copy's name derives from its aliased tags.
+	for i, tag := range a.tags {
+		if _, aliased := aliasVals[tag]; i > 0 && !aliased {
+			tags.Delete(tag)
+		}
+	}
+
 	newDialsDesc := "base dialsdesc unset" // be pessimistic in case dialsdesc isn't set
 	if desc, getErr := tags.Get(common.DialsHelpTextTag); getErr == nil {
 		newDialsDesc = desc.Name
